@@ -121,6 +121,17 @@ def l194(nfields):
         check(nfields >= 4 and len(sp) == 1, 'True only if the four fields decoded and the KDF ran')
         # and the comparison that succeeded was derive(...) == the data field's tail
         check(len(e.tags.get('kdf_verified', [])) == 1, 'True only if derive matched the stored digest')
+        # ... and the derivation was the one the hash string describes: parameters, salt split and digest
+        # length all taken from the params field (a digest shorter than the recorded length is a truncated hash)
+        dec = e.tags.get('b64dec_ropes', [])
+        if len(dec) == 2 and len(sp) == 1:
+            params, data = dec
+            pb = [params[i] for i in range(6)]
+            used = sp[0]
+            check(And(used['n'] == pb[0] * 256 + pb[1], used['r'] == pb[2], used['p'] == pb[3]), 'the KDF ran with the cost parameters recorded in the hash')
+            check(used['length'] == pb[5], 'the KDF derived the digest length recorded in the hash (a shorter stored digest never verifies)')
+            check(rope.rope_eq(used['salt'], data[:pb[4]]), 'the KDF salt is the recorded number of leading bytes of the data field')
+            check(rope.rope_eq(e.tags['kdf_verified'][0]['expected'], data[pb[4]:]), 'the digest compared is the rest of the data field')
     else:
         check(True, 'malformed hash returns False')
 
@@ -161,19 +172,46 @@ def replay_l194(cfg, m):
         def verify(self, km, expected):
             if self.derive(km) != expected:
                 raise InvalidKey('Keys do not match.')
-    matched = []
-    orig_verify = Fake.verify
+    Fake.last = None
+    _init = Fake.__init__
 
-    try:
-        with um.patch.object(a.scrypt, 'Scrypt', Fake):
-            r = a.Auth.verify_password(b'pw', h)
-    except (ValueError, TypeError):
-        return False, 'refused'
-    except Exception as e:
-        return True, 'verify_password(b"pw", %r) raised %s' % (h, type(e).__name__)
-    if r is True:
+    def init(self, *a, **k):
+        _init(self, *a, **k)
+        Fake.last = self
+    Fake.__init__ = init
+
+    def run(hs):
+        try:
+            with um.patch.object(a.scrypt, 'Scrypt', Fake):
+                return 'returned', a.Auth.verify_password(b'pw', hs)
+        except (ValueError, TypeError):
+            return 'refused', None
+        except Exception as e:
+            return 'raised', type(e).__name__
+    kind, r = run(h)
+    if kind == 'raised':
+        return True, 'verify_password(b"pw", %r) raised %s' % (h, r)
+    if kind == 'returned' and r is not True and Fake.last is not None and n >= 4 and dec == 2:
+        # the model's "derive matched" is a free outcome: give the stored digest the bytes the KDF really
+        # produces for the parameters the code under test used, keep its (possibly truncated) length
+        params = base64.b64decode(fields[2])
+        data = base64.b64decode(fields[3])
+        if len(params) == 6:
+            sl = params[4]
+            digest_len = max(0, len(data) - sl)
+            out = Fake.last.derive(hashlib.sha256(b'pw').digest())
+            if len(out) >= digest_len:
+                fields[3] = base64.b64encode(data[:sl] + out[:digest_len]).decode()
+                h2 = ':'.join(fields)
+                kind, r = run(h2)
+                if kind == 'returned' and r is True and digest_len != params[5]:
+                    return True, ('verify_password(b"pw", %r) returned True although the stored digest has %d bytes and the hash '
+                                  'records a digest length of %d' % (h2, digest_len, params[5]))
+                if kind == 'returned' and r is True:
+                    return False, 'well-formed hash verified (allowed)'
+    if kind == 'returned' and r is True:
         return True, 'verify_password(b"pw", %r) returned True for a hash not produced for this password' % (h,)
-    return False, 'returned %r' % r
+    return False, '%s %r' % (kind, r)
 
 
 R.add('L19.4', l194, lambda tier: [dict(nfields=n) for n in range(0, 7)], replay=replay_l194,
